@@ -194,7 +194,7 @@ macro_rules! parts {
 /// oracle is applied after every call, TextCollector at the end.
 fn count_sweep(ctx: &Ctx, rep: &mut Report) {
     use rayon::prelude::*;
-    let nmax = ctx.tier.pick(2300usize, 6500usize);
+    let nmax = ctx.tier.pick(4200usize, 9000usize);
     let limits: Vec<usize> = match ctx.tier {
         Tier::Quick => vec![0, 1, 10, 100],
         Tier::Thorough => vec![0, 1, 2, 3, 9, 10, 11, 20, 100, 1000],
